@@ -70,6 +70,10 @@ def run(ctx):
                    '%s in %s' % (s.callee, 'EventLog impl (can reach the truth handle)' if inside else 'snapshot code (separate file, path given by caller)'), line=s.line)
         ctx.touch(f)
 
+    # no store file — the truth log first of all — is ever resized in place (C04.9 under this property's id)
+    from .c04 import c049
+    c049(ctx, rid='C02.7')
+
     # ---------------------------------------------------------------- C02.2
     app = P.fn('rip_log::EventLog::append')
     ser = app.calls(r'^serde_json::ser::to_string$|^serde_json::ser::to_vec$|^serde_json::ser::to_writer$')
